@@ -573,6 +573,15 @@ def replay_custom(d, prop, path):
             return 1
         print("not reproduced on the current tree")
         return 0
+    if d.get("kind") == "c01_structure":
+        r = job_design(d["design"], "corpus" if d["harness"].startswith("corpus_") else "mem")
+        hit = [x for x in r["records"] if x.get("verdict") == "violated" and x["ob"] == d["obligation"]]
+        print("design %s: %s" % (d["design"], d["finding"]))
+        if hit:
+            print("VIOLATION property=%s replay=%s (%s)" % (prop, path, d["obligation"]))
+            return 1
+        print("not reproduced on the current tree")
+        return 0
     if d.get("kind") == "c01_cosim":
         r = job_cosim(d["K"], d["first"]["seed"] + 1)
         rec = r["records"][0] if r["records"] else None
@@ -888,6 +897,23 @@ def _corpus():
         return wrap(Depacketizer(EndpointDescription([("data", 16)]), EndpointDescription([("data", 16)], [("a", 16), ("b", 8)]), h))
     C["depacketizer"] = depacketizer
 
+    def inst_params():
+        from migen import Instance, Cat, ClockSignal, ResetSignal, Constant
+
+        class D(Module):
+            def __init__(self):
+                a = Signal(4, name_override="a"); b = Signal((3, True), name_override="b"); y = Signal(8, name_override="y"); z = Signal(2, name_override="z")
+                q = Signal(8, name_override="q"); r = Signal(8, name_override="r"); t = Signal(3, name_override="t")
+                self.sync += r.eq(r + a)
+                self.specials += Instance("BLACKBOX", p_WIDTH=8, p_MODE="fast", p_GAIN=1.5, p_INIT=Constant(-3, (4, True)), p_MASK=Constant(0x5a, 8),
+                                          p_RAW=Instance.PreformattedParam("8'h3c"),
+                                          i_A=a, i_B=Cat(b, a[1:3]), i_C=r[2:6], i_D=~a & 5, i_E=Cat(a, b)[2:6], i_K=Constant(2, 3), i_CLK=ClockSignal(), i_RST=ResetSignal(),
+                                          o_Y=y, o_Z=z, o_T=Cat(t[0:2], t[2]), name="u0")
+                self.specials += Instance("PLAIN", i_I=r[0], o_O=q[7], io_IO=q[0:3], name="u1")
+                self.comb += q[3:7].eq(y[0:4] ^ z)
+        return wrap(D())
+    C["instances_blackbox"] = inst_params
+
     def soc(cfg):
         def mk():
             from migen import ClockDomain
@@ -1037,6 +1063,13 @@ def job_design(design, kind):
                         rec["replay"] = p
                 else:
                     rec.update(verdict="violated", trace=[dict(structure=str(d["name"]), kind=d["kind"])])
+                    if rd:
+                        os.makedirs(rd, exist_ok=True)
+                        p = os.path.join(rd, "%s_%s_%s.json" % (name, ph, "".join(ch if ch.isalnum() else "_" for ch in g)[:60]))
+                        json.dump(dict(kind="c01_structure", harness=name, design=design, obligation=rec["ob"], finding=str(d["name"]),
+                                       note="structural mismatch between the emitted text and the FHDL design (no input values involved): re-run convert() on the design and read the text",
+                                       emitted_text=c.src), open(p, "w"), indent=1)
+                        rec["replay"] = p
                 recs.append(rec)
             sol = z3.Solver()
             sol.set("timeout", 10000)
